@@ -68,10 +68,15 @@ fn worker_loop(rx: Receiver<Job>, tx: Sender<Done>) {
 struct Mix {
     name: &'static str,
     cfgs: Vec<Cfg>,
+    /// end-of-stream scripts: `P PP(5)` then `PP(-)` (partial call with 5 frames, then a flush)
+    partial: bool,
 }
 
-fn script(cfg: &Cfg) -> Vec<Vec<Op>> {
+fn script(cfg: &Cfg, partial: bool) -> Vec<Vec<Op>> {
     // step 0 is the construction
+    if partial {
+        return vec![vec![Op::P, Op::PP(Some(5))], vec![Op::PP(None)]];
+    }
     let second: Vec<Op> = if cfg.kind.is_async() {
         vec![Op::R((1.0 + cfg.max_rel) / 2.0, true), Op::P]
     } else {
@@ -90,30 +95,35 @@ fn mixes() -> Vec<Mix> {
     let xo = Cfg::fft(Kind::XO, 2, 3, 48, 2).with_channels(2);
     let xx = Cfg::fft(Kind::XX, 2, 3, 16, 1).with_channels(2);
     vec![
-        Mix { name: "XI+XI equal fft sizes", cfgs: vec![xi.clone(), xi.clone()] },
-        Mix { name: "XO+XX equal fft sizes", cfgs: vec![xo.clone(), xx.clone()] },
-        Mix { name: "SI+SI identical tables", cfgs: vec![si.clone(), si.clone()] },
-        Mix { name: "SO+FI", cfgs: vec![so.clone(), fi.clone()] },
-        Mix { name: "SI+FO+XI", cfgs: vec![si.clone(), fo.clone(), xi.clone()] },
-        Mix { name: "XX+XI+XO equal fft sizes", cfgs: vec![xx, xi.clone(), xo] },
+        Mix { partial: false, name: "XI+XI equal fft sizes", cfgs: vec![xi.clone(), xi.clone()] },
+        Mix { partial: false, name: "XO+XX equal fft sizes", cfgs: vec![xo.clone(), xx.clone()] },
+        Mix { partial: false, name: "SI+SI identical tables", cfgs: vec![si.clone(), si.clone()] },
+        Mix { partial: false, name: "SO+FI", cfgs: vec![so.clone(), fi.clone()] },
+        Mix { partial: false, name: "SI+FO+XI", cfgs: vec![si.clone(), fo.clone(), xi.clone()] },
+        Mix { partial: false, name: "XX+XI+XO equal fft sizes", cfgs: vec![xx, xi.clone(), xo] },
         // equal input block, different output block (a cache keyed too coarsely would collide)
-        Mix { name: "XX 3->2 + XX 3->1 same input block", cfgs: vec![Cfg::fft(Kind::XX, 3, 2, 24, 1).with_channels(2), Cfg::fft(Kind::XX, 3, 1, 24, 1).with_channels(2)] },
-        Mix { name: "XI 2->3 + XX 2->1 same input block", cfgs: vec![xi, Cfg::fft(Kind::XX, 2, 1, 16, 1).with_channels(2)] },
+        Mix { partial: false, name: "XX 3->2 + XX 3->1 same input block", cfgs: vec![Cfg::fft(Kind::XX, 3, 2, 24, 1).with_channels(2), Cfg::fft(Kind::XX, 3, 1, 24, 1).with_channels(2)] },
+        Mix { partial: false, name: "XI 2->3 + XX 2->1 same input block", cfgs: vec![xi, Cfg::fft(Kind::XX, 2, 1, 16, 1).with_channels(2)] },
         // instances that carry saved frames from call to call (chunk not a multiple of the block)
-        Mix { name: "XI+XI with saved input frames", cfgs: vec![Cfg::fft(Kind::XI, 3, 2, 16, 1).with_channels(2), Cfg::fft(Kind::XI, 3, 2, 16, 1).with_channels(2)] },
-        Mix { name: "XO+XO with saved output frames", cfgs: vec![Cfg::fft(Kind::XO, 2, 3, 10, 1).with_channels(2), Cfg::fft(Kind::XO, 2, 3, 10, 1).with_channels(2)] },
-        Mix { name: "FO+FO identical", cfgs: vec![fo.clone(), fo.clone()] },
+        Mix { partial: false, name: "XI+XI with saved input frames", cfgs: vec![Cfg::fft(Kind::XI, 3, 2, 16, 1).with_channels(2), Cfg::fft(Kind::XI, 3, 2, 16, 1).with_channels(2)] },
+        Mix { partial: false, name: "XO+XO with saved output frames", cfgs: vec![Cfg::fft(Kind::XO, 2, 3, 10, 1).with_channels(2), Cfg::fft(Kind::XO, 2, 3, 10, 1).with_channels(2)] },
+        Mix { partial: false, name: "FO+FO identical", cfgs: vec![fo.clone(), fo.clone()] },
         // identical sinc table sizes, different cutoff / window
-        Mix { name: "SI+SI same table size different filter", cfgs: vec![si.clone(), { let mut c = si.clone(); c.ratio = 0.8; c.window = rubato::WindowFunction::Hann; c }] },
+        Mix { partial: false, name: "SI+SI same table size different filter", cfgs: vec![si.clone(), { let mut c = si.clone(); c.ratio = 0.8; c.window = rubato::WindowFunction::Hann; c }] },
         // parameters that differ only slightly (a cache keyed on rounded floats would collide)
-        Mix { name: "SI+SI cutoffs 3e-5 apart", cfgs: vec![si.clone(), { let mut c = si.clone(); c.f_cutoff += 3.0e-5; c }] },
-        Mix { name: "SI+SO downsampling, ratios 5e-5 apart", cfgs: vec![{ let mut c = si.clone(); c.ratio = 0.91875; c }, { let mut c = so.clone(); c.ratio = 0.9187; c }] },
+        Mix { partial: false, name: "SI+SI cutoffs 3e-5 apart", cfgs: vec![si.clone(), { let mut c = si.clone(); c.f_cutoff += 3.0e-5; c }] },
+        Mix { partial: false, name: "SI+SO downsampling, ratios 5e-5 apart", cfgs: vec![{ let mut c = si.clone(); c.ratio = 0.91875; c }, { let mut c = so.clone(); c.ratio = 0.9187; c }] },
         // same type and ratios, different chunk sizes (state keyed without the chunk size would collide)
-        Mix { name: "FI+FI chunk 16 and 24", cfgs: vec![fi.clone(), { let mut c = fi.clone(); c.chunk = 24; c }] },
-        Mix { name: "FO+FO chunk 16 and 9", cfgs: vec![fo.clone(), { let mut c = fo.clone(); c.chunk = 9; c }] },
-        Mix { name: "SI+SI chunk 24 and 7", cfgs: vec![si.clone(), { let mut c = si.clone(); c.chunk = 7; c }] },
-        Mix { name: "SO+SO chunk 24 and 7", cfgs: vec![so.clone(), { let mut c = so.clone(); c.chunk = 7; c }] },
-        Mix { name: "FO+FO ratios 3e-5 apart", cfgs: vec![fo.clone(), { let mut c = fo.clone(); c.ratio += 3.0e-5; c }] },
+        Mix { partial: false, name: "FI+FI chunk 16 and 24", cfgs: vec![fi.clone(), { let mut c = fi.clone(); c.chunk = 24; c }] },
+        Mix { partial: false, name: "FO+FO chunk 16 and 9", cfgs: vec![fo.clone(), { let mut c = fo.clone(); c.chunk = 9; c }] },
+        Mix { partial: false, name: "SI+SI chunk 24 and 7", cfgs: vec![si.clone(), { let mut c = si.clone(); c.chunk = 7; c }] },
+        Mix { partial: false, name: "SO+SO chunk 24 and 7", cfgs: vec![so.clone(), { let mut c = so.clone(); c.chunk = 7; c }] },
+        // end-of-stream calls of instances with different channel counts (a shared scratch for the
+        // padded input would be cleared for the caller's channels only)
+        Mix { partial: true, name: "FI 2ch + FI 1ch, partial calls", cfgs: vec![fi.clone(), fi.clone().with_channels(1)] },
+        Mix { partial: true, name: "FI 2ch + SO 3ch, partial calls", cfgs: vec![fi.clone(), so.clone().with_channels(3)] },
+        Mix { partial: true, name: "XI 2ch + XO 1ch, partial calls", cfgs: vec![Cfg::fft(Kind::XI, 2, 3, 32, 2).with_channels(2), Cfg::fft(Kind::XO, 2, 3, 48, 2).with_channels(1)] },
+        Mix { partial: false, name: "FO+FO ratios 3e-5 apart", cfgs: vec![fo.clone(), { let mut c = fo.clone(); c.ratio += 3.0e-5; c }] },
     ]
 }
 
@@ -182,11 +192,12 @@ fn run_schedules(mix: &Mix, item: &Item, journal: Option<&JournalFile>) -> Resul
     let mut reference: Vec<Vec<StepOut>> = Vec::new();
     for (i, cfg) in mix.cfgs.iter().enumerate() {
         let cfg = cfg.clone();
+        let partial = mix.partial;
         let outs = std::thread::spawn(move || -> Result<Vec<StepOut>, String> {
             crate::run::install_panic_hook();
             let mut r = build(&cfg, i)?;
             let mut outs = Vec::new();
-            for ops in script(&cfg) {
+            for ops in script(&cfg, partial) {
                 outs.push(exec(&mut r, &ops));
             }
             Ok(outs)
@@ -249,7 +260,7 @@ fn run_schedules(mix: &Mix, item: &Item, journal: Option<&JournalFile>) -> Resul
                     }
                 } else {
                     let r = objs[inst].take().ok_or("object missing")?;
-                    let ops = script(&mix.cfgs[inst])[s - 1].clone();
+                    let ops = script(&mix.cfgs[inst], mix.partial)[s - 1].clone();
                     txs[w].send(Job::Step(r, ops)).map_err(|e| e.to_string())?;
                     match done_rx.recv().map_err(|e| e.to_string())? {
                         Done::Stepped(r, out) => {
@@ -274,7 +285,7 @@ fn run_schedules(mix: &Mix, item: &Item, journal: Option<&JournalFile>) -> Resul
             schedules += 1;
             outcome_set.insert(format!("{}:{}:{}", mix.name, if ok { "same" } else { "DIFFERENT" }, order.iter().map(|x| x.to_string()).collect::<String>()));
             if sample.is_none() {
-                sample = Some(json!({"mix": mix.name, "interleaving": order, "worker_of_step": (0..steps).map(worker_of).collect::<Vec<_>>(), "scripts": mix.cfgs.iter().map(|c| format!("construct {}; P P; {}", c.short(), if c.kind.is_async() { "R(1.5,T) P" } else { "P" })).collect::<Vec<_>>()}));
+                sample = Some(json!({"mix": mix.name, "interleaving": order, "worker_of_step": (0..steps).map(worker_of).collect::<Vec<_>>(), "scripts": mix.cfgs.iter().map(|c| format!("construct {}; {}", c.short(), script(c, mix.partial).iter().map(|s| crate::ops::history_text(s)).collect::<Vec<_>>().join("; "))).collect::<Vec<_>>()}));
             }
         }
         for tx in &txs {
@@ -296,12 +307,13 @@ fn run_schedules(mix: &Mix, item: &Item, journal: Option<&JournalFile>) -> Resul
                     let cfg = mix.cfgs[t % k].clone();
                     let inst = t % k;
                     let b = barrier.clone();
+                    let partial = mix.partial;
                     std::thread::spawn(move || -> Result<Vec<StepOut>, String> {
                         crate::run::install_panic_hook();
                         b.wait();
                         let mut r = build(&cfg, inst)?;
                         let mut outs = Vec::new();
-                        for ops in script(&cfg) {
+                        for ops in script(&cfg, partial) {
                             outs.push(exec(&mut r, &ops));
                         }
                         Ok(outs)
